@@ -55,7 +55,8 @@ structure St (α : Type) where
   putN : List (String × α) := []
   putS : List (String × String) := []
   warnings : Nat := 0
-  /-- a C conversion with undefined behaviour happened ((long) of NaN / out-of-range): result not judged -/
+  /-- a C conversion with undefined behaviour happened ((long) of NaN / out-of-range), or a NaN was formatted as
+  text (printf shows its sign bit, the model has a single NaN): differences of such a run are not judged -/
   ub : Bool := false
   /-- high precision of the current selected output (numtostr) -/
   hp : Bool := false
@@ -258,7 +259,8 @@ def applyUn (hook : String → M α (Val α)) (f : UnFn) (v : Val α) : M α (Va
      | .str _ => .error .typeMismatch)
   | .str_ =>
     (match v with
-     | .num x => .ok (.str (BNum.fmt s.hp x), s)
+     -- printf shows the sign bit of a NaN ("-nan"); the model has one NaN: such a text is not judged
+     | .num x => .ok (.str (BNum.fmt s.hp x), if BNum.isNaN x then { s with ub := true } else s)
      | .str _ => .error .typeMismatch)
   | .chr_ =>
     (match v with
